@@ -162,9 +162,13 @@ InsertGroup(g) ==             \* _create_job_groups, one group per bunch
   /\ UNCHANGED <<us, gst, gnj, canc, bst, bnj, bdel, js, jc, npp, jatt, tally, stg, cr, ur, att, ares, inst, disp, jdisp,
                  ujob, ugrp, ubp, udate, today>>
 
+UStart(u) == 1 + Cardinality({ k \in Jobs : JUpd[k] < u })      \* batch_updates.start_job_id
+
 InsertJob(j) ==               \* _create_jobs, one job per bunch; trigger jobs_before_insert
   /\ js[j] = "none" /\ us[JUpd[j]] = "open" /\ gex[JGrp[j]] /\ ~bdel
   /\ ~GrpCanc(JGrp[j])
+  \* submission checks: every parent precedes the job; parents from earlier updates must exist already
+  /\ \A p \in JPar[j] : 1 <= p /\ p < j /\ (p < UStart(JUpd[j]) => (p \in Jobs /\ js[p] # "none"))
   /\ LET ready == JUpd[j] = 1 /\ JPar[j] = {}
          u == JUpd[j]
      IN /\ js' = [js EXCEPT ![j] = IF ready THEN "Ready" ELSE "Pending"]
@@ -269,8 +273,10 @@ StartLike(j, a, i, t, okState, instState, newState) ==
            ELSE UNCHANGED <<js, jc, jatt, ur, cr>>
   /\ UNCHANGED <<us, gex, gst, gnj, canc, bst, bnj, bdel, npp, tally, stg, ares, disp, jdisp, today>>
 
+\* Worker reports are accepted from activated instances only (@active_instances_only); a report that passed that check may
+\* still reach the database after the instance was deactivated.
 Started(j, a, i, t) ==        \* worker report job_started (possibly late / duplicated)
-  /\ <<j, a, i>> \in disp /\ js[j] # "none" /\ t \in Times
+  /\ <<j, a, i>> \in disp /\ js[j] # "none" /\ t \in Times /\ inst[i].st \in {"active", "inactive"}
   /\ StartLike(j, a, i, t, "Ready", "active", "Running")
 
 CreatingProc(j, a, i, t) ==   \* job-private instance manager, after creating the instance
@@ -318,6 +324,7 @@ MJC(j, a, i, st, t0, t1, reason) ==
 
 Complete(j, a, i, st, t0, t1) ==      \* worker report job_complete (possibly late / duplicated / stale attempt)
   /\ <<j, a, i>> \in disp /\ js[j] # "none" /\ st \in {"Success", "Failed"} /\ t0 \in Times /\ t1 \in Times /\ t0 <= t1
+  /\ inst[i].st \in {"active", "inactive"}
   /\ MJC(j, a, i, st, t0, t1, "completed")
 
 \* unschedule_job (067)
@@ -368,6 +375,7 @@ CancelCreating(j, a, t) ==
   /\ ur.cc > 0 /\ t \in Times
   /\ js[j] = "Creating" /\ gst[JGrp[j]] = "running" /\ GrpCanc(JGrp[j]) /\ ~JAlways[j] /\ ~jc[j]
   /\ att[j][a].ex
+  /\ ("pendrel" \in Avoid => inst[att[j][a].inst].st # "pending")        \* scenario guard (finding "pendrel")
   /\ MJC(j, a, att[j][a].inst, "Cancelled", NULLT, t, "cancelled")
 
 \* cancel_cancelled_running_jobs_loop_body -> unschedule_job
@@ -410,7 +418,7 @@ Deactivate(i, t) ==           \* deactivate_instance (067): ends all its attempt
 \* ---- billing -----------------------------------------------------------------------------------------------------------------------
 Heartbeat(j, a, t) ==         \* driver.main.billing_update_1: UPDATE attempts SET rollup_time = t
   /\ "billing" \in Features /\ t \in Times
-  /\ att[j][a].ex /\ \E i \in Insts : <<j, a, i>> \in disp
+  /\ att[j][a].ex /\ \E i \in Insts : <<j, a, i>> \in disp /\ inst[i].st \in {"active", "inactive"}
   /\ UpdateAttempts({<<j, a>>}, [p \in {<<j, a>>} |-> [att[j][a] EXCEPT !.ru = t]])
   /\ UNCHANGED <<us, gex, gst, gnj, canc, bst, bnj, bdel, js, jc, npp, jatt, tally, stg, cr, ur, ares, inst, disp, jdisp, today>>
 
